@@ -300,6 +300,17 @@ M_PRELUDE = [
     "import collections, datetime, decimal, enum, fractions, ipaddress, pathlib, uuid, zoneinfo",
     "from typing_extensions import TypedDict, Required, NotRequired, Annotated",
     "from mashumaro.types import Alias",
+    "from mashumaro import pass_through",
+    "from mashumaro.types import SerializationStrategy",
+    "from mashumaro.dialect import Dialect",
+    "class Pt:\n    def __init__(self, x=0):\n        self.x = x",
+    "def ser_str(v) -> str:\n    return str(v)",
+    "def ser_int(v) -> int:\n    return 0",
+    "def ser_bool(v) -> bool:\n    return True",
+    "def ser_float(v) -> float:\n    return 0.5",
+    "def ser_date(v) -> datetime.date:\n    return datetime.date.min",
+    "def ser_any(v):\n    return v",
+    "class StratS(SerializationStrategy):\n    def serialize(self, v) -> str:\n        return str(v)\n    def deserialize(self, v):\n        return v",
     "class ME1(enum.Enum):\n    A = 'a'\n    B = 2",
     "class ME0(enum.Enum):\n    pass",
     "class ME2(enum.IntEnum):\n    X = 1\n    Y = 2",
@@ -391,6 +402,50 @@ def m_type(r, depth, avail, allow_any=True, asd=False) -> MT:
               sum((p.classes for p in parts), ()))
 
 
+# replacement types of overrides: python spelling of the serialize callable, Coq ov term, key of the replacement type
+OV_RET = [("ser_str", "ORet (Some TStr)", "str"), ("ser_int", "ORet (Some TInt)", "int"), ("ser_bool", "ORet (Some TBool)", "bool"),
+          ("ser_float", "ORet (Some TFloat)", "float"), ("ser_date", 'ORet (Some (TLeaf "string" (Some "date") None))', None)]
+PYKEY = {"int": "int", "float": "float", "bool": "bool", "Pt": "Pt"}
+COQKEY = {"int": "TInt", "float": "TFloat", "bool": "TBool", "Pt": 'TOpaque "Pt"'}
+
+
+def keys_of(coq_term: str) -> set:
+    return {k for k, c in COQKEY.items() if c in coq_term} | ({"str"} if "TStr" in coq_term else set())
+
+
+def m_tables(r):
+    """Config.dialect / Config.serialization_strategy of one class: (python lines for the dialect class body, python dict text for
+    Config, Coq dial table, Coq conf table, overridden keys, keys with a serializing override).  "str" is never overridden (it is
+    the implicit key type of Dict[str, .]); a replacement type never carries an overridden key (no chains: domain of the clause)."""
+    if r.random() > 0.4:
+        return None
+    K = r.sample(["int", "float", "bool", "Pt"], r.randrange(1, 4))
+    dial, conf = {}, {}
+    serializing = set()
+    for k in K:
+        for tab in r.sample([dial, conf], r.randrange(1, 3)):
+            x = r.random()
+            cands = [o for o in OV_RET if o[2] not in K]
+            if k == "Pt" or x < 0.55:
+                fn, coq, _ = r.choice(cands)
+                form = r.choice(["dict", "dict", "cls"]) if fn == "ser_str" else "dict"
+                tab[k] = ("StratS()" if form == "cls" else '{"serialize": %s, "deserialize": ser_any}' % fn, coq)
+            elif x < 0.7:
+                tab[k] = ("pass_through", "OPass")
+            elif x < 0.85:
+                tab[k] = ('{"deserialize": ser_any}', "ODeser")
+            else:
+                tab[k] = ('{"serialize": ser_any}', "ORet None")
+    # the winner per key: dialect first, then Config; a table entry without "serialize" is skipped
+    for k in K:
+        for tab in (dial, conf):
+            if k in tab and tab[k][1] != "ODeser":
+                if tab[k][1] != "OPass":
+                    serializing.add(k)
+                break
+    return dial, conf, set(K), serializing
+
+
 def m_family(r):
     n = r.randrange(1, 5)
     names = [f"M{i}" for i in range(n)]
@@ -408,6 +463,9 @@ def m_family(r):
         refs[nm] = set()
         used_alias = set()
         cfg_aliases = {}
+        tabs = m_tables(r)
+        over = tabs[2] if tabs else set()
+        pt_ok = bool(tabs) and "Pt" in tabs[3]
         ntd = r.random() < 0.3       # Config.namedtuple_as_dict of the owner decides the form of every NamedTuple below it
         for j in range(nf):
             fname = r.choice(["a", "b", "x", "items", "type", "ref"]) + str(j)
@@ -417,6 +475,10 @@ def m_family(r):
                               MT(f'List["{target}"]', f'TList (TClass "{target}")', None, False, (target,))])
             else:
                 t = m_type(r, r.choice([0, 1, 1, 2]), avail, asd=ntd)
+                if pt_ok and r.random() < 0.3:
+                    py, cq = r.choice([("Pt", 'TOpaque "Pt"'), ("List[Pt]", 'TList (TOpaque "Pt")'), ("Optional[Pt]", 'TUnion [TOpaque "Pt"; TNone]'),
+                                       ("Dict[str, Pt]", 'TDict (TOpaque "Pt")'), ("Tuple[Pt, int]", 'TTuple [TOpaque "Pt"; TInt]')])
+                    t = MT(py, cq)
                 # a NamedTuple with string annotations under a rendered default is a known finding: such a field gets no default
                 # (also transitively: a class that contains one cannot sit under a rendered default either)
                 def bad(tt):
@@ -449,6 +511,22 @@ def m_family(r):
                 meta_alias = ann_alias = cfg_alias = None
                 eff = fname
             descr = r.choice([None, None, None, "d\u00e9scr 'q'", ""])
+            # field-level override: at most one of "serialize" / "serialization_strategy"; its replacement type carries no overridden key
+            f_ser = f_strat = None
+            if r.random() < 0.18 and not (cyclic and j == 0 and i == n - 1):
+                cands = [o for o in OV_RET if o[2] not in over]
+                if r.random() < 0.5:
+                    f_ser = r.choice([("pass_through", "OPass"), ("str", "OBasic TStr"), ("bool", "OBasic TBool"), ("ser_any", "ORet None")]
+                                     + [(fn, coq) for fn, coq, _ in cands])
+                    if f_ser[0] in ("str",) and "str" in over:
+                        f_ser = ("pass_through", "OPass")
+                else:
+                    f_strat = r.choice([("pass_through", "OPass"), ('{"deserialize": ser_any}', "ODeser")]
+                                       + [('{"serialize": %s}' % fn, coq) for fn, coq, _ in cands])
+            passes = (f_ser or f_strat or ("", ""))[1] in ("OPass", "ODeser")
+            if 'TOpaque "Pt"' in t.coq and (f_ser or f_strat) and passes and (f_ser or f_strat)[1] == "OPass":
+                f_ser = f_strat = None        # pass_through over an uncovered third-party class: NotImplementedError (not generated)
+            overridden_here = bool(f_ser or f_strat) or bool(keys_of(t.coq) & over)
             kind = r.random()
             pyd = None
             jd = None
@@ -456,7 +534,9 @@ def m_family(r):
             if (kind < 0.35 and not no_default) or seen_default:
                 has_default = True
                 x = r.random()
-                if t.default and x < 0.6:
+                if overridden_here:
+                    pyd, jd = None, None      # a default rendered through an override is not predicted by the generator: factory only
+                elif t.default and x < 0.6:
                     pyd, jd = r.choice(t.default)
                 elif x < 0.8:
                     pyd, jd = "None", "JNull"
@@ -483,20 +563,37 @@ def m_family(r):
                 md["alias"] = meta_alias
             if descr is not None:
                 md["description"] = descr
-            if md:
-                parts.append("metadata=" + repr(md))
+            mdsrc = [f"{k!r}: {v!r}" for k, v in md.items()]
+            if f_ser:
+                mdsrc.append(f"'serialize': {f_ser[0]}")
+            if f_strat:
+                mdsrc.append(f"'serialization_strategy': {f_strat[0]}")
+            if mdsrc:
+                parts.append("metadata={" + ", ".join(mdsrc) + "}")
             if parts:
                 body.append(f"    {fname}: {tpy} = field({', '.join(parts)})")
             else:
                 body.append(f"    {fname}: {tpy}")
             oq = lambda v: "None" if v is None else f"(Some {coq_str(v)})"
             rdef = "RNone" if not has_default else (f"(RDefault ({jd}))" if jd is not None else "RFactory")
-            cflds.append(f"mkrfld {coq_str(fname)} {oq(meta_alias)} {oq(ann_alias)} ({t.coq}) {'true' if init else 'false'} {rdef} {oq(descr)}")
+            cflds.append(f"mkrfld {coq_str(fname)} {oq(meta_alias)} {oq(ann_alias)} ({t.coq}) {'true' if init else 'false'} {rdef} {oq(descr)} "
+                         + (f"(Some ({f_ser[1]}))" if f_ser else "None") + " " + (f"(Some ({f_strat[1]}))" if f_strat else "None"))
         cfg = [f"        {o} = True" for o in ("omit_none", "omit_default", "serialize_by_alias") if r.random() < 0.3]
         if ntd:
             cfg.append("        namedtuple_as_dict = True")
         if cfg_aliases:
             cfg.append("        aliases = " + repr(cfg_aliases))
+        dial_coq = conf_coq = "[]"
+        if tabs:
+            dial, conf = tabs[0], tabs[1]
+            if dial:
+                lines.append(f"class D{nm}(Dialect):")
+                lines.append("    serialization_strategy = {" + ", ".join(f"{PYKEY[k]}: {v[0]}" for k, v in dial.items()) + "}")
+                cfg.append(f"        dialect = D{nm}")
+                dial_coq = "[" + "; ".join(f'("{k}", {v[1]})' for k, v in dial.items()) + "]"
+            if conf:
+                cfg.append("        serialization_strategy = {" + ", ".join(f"{PYKEY[k]}: {v[0]}" for k, v in conf.items()) + "}")
+                conf_coq = "[" + "; ".join(f'("{k}", {v[1]})' for k, v in conf.items()) + "]"
         if cfg:
             body.append("    class Config(BaseConfig):")
             body.extend(cfg)
@@ -505,7 +602,7 @@ def m_family(r):
         lines.append("@dataclass")
         lines.append(f"class {nm}:")
         lines.extend(body)
-        coq_classes.append(f'("{nm}", mkrcls [' + "; ".join(f"({coq_str(k)}, {coq_str(v)})" for k, v in cfg_aliases.items()) + "] ["
+        coq_classes.append(f'("{nm}", mkrcls [' + "; ".join(f"({coq_str(k)}, {coq_str(v)})" for k, v in cfg_aliases.items()) + "] " + dial_coq + " " + conf_coq + " ["
                            + "; ".join(cflds) + "])")
 
     def reach_cyclic(root_classes):
